@@ -19,6 +19,8 @@
      Q <id> lu <n> <k>      ; FDUMP (after mpq_ILLfactor) ; n lines R v.. ; k lines FT a | x  /  BT c | y
          -> A <id> N                                     (lu_factor refuses the pivot order rperm/cperm of the dump)
           | A <id> S <repr_same_lu 0|1> <uc ur lc lr perms: 0|1 each> <walk on e_0,e_n-1 like the dump 0|1> <per solve: lu_factor result solves like the library>
+     Q <id> topo <n> <k>    ; FDUMP .. FDUMPEND ; k lines O idx..  (the order in which mpq_ILLfactor_ftran listed a result)
+         -> A <id> <per line: listed_order_ok (f_uc dump) order>
      Q <id> lusing <n> <stage> ; SING nsing (singr singc)* ; FDUMP sing .. FDUMPEND ; n lines R v.. ; n lines X v.. | NOX
          -> A <id> <check_sing_report 0|1|-> <pivot prefix S|N> <kernel of the prefix zero on singr x singc 0|1|->
    Everything that decides anything is extracted Coq code. *)
@@ -233,6 +235,15 @@ let () =
                 Buffer.add_string buf (" " ^ bit (List.length x = n &&
                   (if ft then veqb nn (ftran_dense r (qlist a)) (qlist x) else veqb nn (btran r (qlist a)) (qlist x))))) solves;
               Printf.printf "A %s S %s %s%s%s%s%s %s%s\n" id (bit same) (bit d1) (bit d2) (bit d3) (bit d4) (bit d5) (bit walk) (Buffer.contents buf))
+         | "topo", [ n; k ] ->
+           let n = int_of_string n and k = int_of_string k in
+           let dump = read_dump ic n in
+           let buf = Buffer.create 64 in
+           for _ = 1 to k do
+             let o = List.map (fun t -> nat_of_int (int_of_string t)) (expect ic "O") in
+             Buffer.add_string buf (" " ^ bit (listed_order_ok dump.f_uc o))
+           done;
+           Printf.printf "A %s%s\n" id (Buffer.contents buf)
          | "lusing", [ n; stage ] ->
            (* the report of a singular factorization: certificate X for the repaired matrix and the null rows (check_sing_report);
               the kernel after the pivots the library made before it stopped must vanish on the reported rows x columns *)
